@@ -61,6 +61,9 @@ var c07terms = []c07term{
 	{"abort-callback", "global (L, BLOCK)\nf := func() {\n  try {\n    return BLOCK()\n  } finally {\n    L(1)\n  }\n}\nreturn f()", true, "callback"},
 	{"host-panic", "global (L, PANIC)\nf := func() {\n  x := {a: 1}\n  try {\n    return PANIC()\n  } finally {\n    x.a = 2\n  }\n}\nreturn f()", false, ""},
 	{"abort-in-nested-try", "global (L, STARTED)\nspin := func() {\n  STARTED()\n  for {\n  }\n}\nguard := func() {\n  try {\n    return spin()\n  } catch e {\n    return \"guard\"\n  }\n}\nouter := func() {\n  try {\n    return guard()\n  } finally {\n    L(\"never\")\n  }\n}\nreturn outer()", true, "loop"},
+	// a script with a variadic parameter hands its argument array (and a closure over it) to the host
+	{"variadic-keeps-args", "global (L, KEEP)\nparam (...a)\nKEEP(a)\nKEEP([a, len(a)])\nreturn a", true, ""},
+	{"variadic-keeps-args-2", "global (L, KEEP)\nparam (p, ...a)\nb := a\nKEEP(b, {k: a})\nthrow error(\"after keeping\")", true, ""},
 	// a Go module with nested mutable attributes is changed in place by the script
 	{"builtin-module-nested-mutation", "global L\np := import(\"plugins\")\np.registry[\"k\"] = true\np.nested.inner[\"k\"] = 1\np.nested.arr[0][\"k\"] = 2\np.state.n += 1\np.log[0] += 10\np.buf[0] = 7\np.sync[\"k\"] = 3\np.list = append(p.list, 1)\np.version = 2\nreturn [len(p.registry), p.state.n]", true, ""},
 	// the run is aborted / dies while a script function runs on a child VM inside a Go callback
@@ -91,6 +94,9 @@ var c07observers = []string{
 	"global L\ng := func() {\n  return [1][5]\n}\ntry {\n  g()\n} catch e {\n  L(\"main caught\", e.Name)\n}\nh := func() {\n  return 7\n}\nreturn [h(), h()]",
 	"global L\ng3 := func() {\n  throw error(\"deep\")\n}\ng2 := func() {\n  x := g3()\n  return x\n}\ng1 := func() {\n  x := g2()\n  return x\n}\ntry {\n  g1()\n} catch e {\n  L(\"main caught\", e.Message)\n}\nk := func(a) {\n  return a + 1\n}\nreturn [k(1), k(2)]",
 	"global L\np := import(\"plugins\")\nL(len(p.registry), len(p.nested.inner), len(p.nested.arr[0]), p.state.n, p.log[0], p.buf[0], len(p.sync), len(p.list), p.version)\np.state.n += 5\np.registry[\"o\"] = 1\nreturn [p.state.n, len(import(\"plugins\").registry)]",
+	// variadic observers (more, fewer and as many arguments as earlier runs had)
+	"global L\nparam (...rest)\nrest = append(rest, 5)\nreturn rest",
+	"global L\nparam (first, ...rest)\nif len(rest) > 0 {\n  rest[0] = \"overwritten\"\n}\nreturn [first, rest]",
 	// script functions run on child VMs (Invoker) by the observer
 	"global (L, CALL)\nf := func(x) {\n  return x + 1\n}\nr := [CALL(f, 1), CALL(func() {\n  try {\n    throw \"t\"\n  } catch e {\n    return \"c\"\n  }\n}), CALL(func() { return CALL(f, 10) })]\nL(r)\ntry {\n  CALL(func() { return [1][3] })\n} catch e {\n  L(e.Name)\n}\nreturn r",
 	// main-level exits that an own try statement does not cover: a stale handler left in frame 0 would intercept them
@@ -182,6 +188,12 @@ func c07runItem(vm *ugo.VM, t c07term, bc *ugo.Bytecode) (kind string) {
 	var started, release atomic.Bool
 	g := ugo.Map{"L": rec.Func(), "G": ugo.Int(3),
 		"CALL":    c07callGlobal(),
+		"KEEP": &ugo.Function{Name: "KEEP", Value: func(a ...ugo.Object) (ugo.Object, error) {
+			for _, o := range a {
+				c07kept = append(c07kept, c07keptValue{o, canon.Value(o)})
+			}
+			return ugo.Undefined, nil
+		}},
 		"PANIC":   &ugo.Function{Name: "PANIC", Value: func(...ugo.Object) (ugo.Object, error) { panic("history panic") }},
 		"STARTED": &ugo.Function{Name: "STARTED", Value: func(...ugo.Object) (ugo.Object, error) { started.Store(true); return ugo.Undefined, nil }},
 		"BLOCK": &ugo.Function{Name: "BLOCK", Value: func(...ugo.Object) (ugo.Object, error) {
@@ -279,6 +291,15 @@ func c07bounded(fn func()) bool {
 	}
 }
 
+// c07kept: values a history script handed to the host (KEEP(v)) with their rendering at that moment; whatever the VM
+// does afterwards - other runs, Clear, SetBytecode - must not change them
+type c07keptValue struct {
+	obj  ugo.Object
+	snap string
+}
+
+var c07kept []c07keptValue
+
 // c07watchdogs counts history items of this worker that only ended through the 20 s watchdog; after two of them the
 // worker stops running histories (each costs 20 s and leaves a goroutine behind) - the run then reports what it has.
 var c07watchdogs int
@@ -288,6 +309,7 @@ func (m c07) runCase(c *core.Ctx, env *c07env, hist [][2]int, lastTransition int
 		c.Count("skipped_after_watchdogs")
 		return false
 	}
+	c07kept = nil
 	obs := env.compile(observerSrc)
 	if obs == nil {
 		c.Count("discarded_compile_error")
@@ -357,6 +379,15 @@ func (m c07) runCase(c *core.Ctx, env *c07env, hist [][2]int, lastTransition int
 		return true
 	}
 	used := m.observe(vm, obs)
+	for _, k := range c07kept {
+		c.Count("kept_values_checked")
+		if now := canon.Value(k.obj); now != k.snap {
+			c.Violation("C07|kept-value-changed|"+histKinds(hist), "a value an earlier script handed to the host changed while the VM ran a later script: "+trunc(k.snap, 80)+" became "+trunc(now, 80), c07wit{History: append(names, "observer after "+lt), Observer: observerSrc, Why: "kept value changed", Used: now, Fresh: k.snap, Seed: genTag})
+			c07kept = nil
+			return true
+		}
+	}
+	c07kept = nil
 	fresh := m.observe(ugo.NewVM(obs), obs)
 	c.Count("histories")
 	if fresh.Kind == "error" {
